@@ -81,17 +81,29 @@ pub fn annotate(evs: &mut [J], seeds: &[[u8; 32]]) {
     let first = idx.iter().copied().find(|i| evs[*i]["resample"] == true && evs[*i]["micro"] == false);
     let mut chosen: Option<ChaCha8Rng> = None;
     let mut loose_first: Option<&'static str> = None;
-    if let Some(fi) = first {
-        let v0 = vel(&evs[fi]);
-        'outer: for s in seeds {
+    // The stream is identified by the first momentum that can be found in it exactly. Usually that is the very
+    // first one; if the first few are not samples of the stream at all (which is what the check is there to
+    // find), a later one still identifies the stream, and the earlier ones are then reported as not found.
+    let candidates: Vec<usize> = idx.iter().copied()
+        .filter(|i| evs[*i]["resample"] == true && evs[*i]["micro"] == false).take(12).collect();
+    'cand: for (ci, fi) in candidates.iter().enumerate() {
+        let v0 = vel(&evs[*fi]);
+        if v0.is_empty() {
+            continue;
+        }
+        let range: u128 = if ci == 0 { 4096 } else { 60_000 };
+        for s in seeds {
             let mut rng = ChaCha8Rng::from_seed(*s);
-            for w in 0..4096u128 {
-                if !v0.is_empty() && matches_at(&mut rng, w, &v0).is_some() {
+            for w in 0..range {
+                if matches_at(&mut rng, w, &v0).is_some() {
                     chosen = Some(ChaCha8Rng::from_seed(*s));
-                    break 'outer;
+                    break 'cand;
                 }
             }
         }
+    }
+    if let Some(fi) = first {
+        let v0 = vel(&evs[fi]);
         if chosen.is_none() {
             // not found exactly under any seed: is it the right words with a wrong scale?
             'outer2: for s in seeds {
